@@ -100,7 +100,7 @@ func createGetCmafIngesterInfoHdlr(s *Server) func(ctx context.Context, input *i
 		resp.Body.DestName = ing.destName
 		resp.Body.URL = ing.url
 		resp.Body.ID = input.Id
-		resp.Body.Report = strings.Join(ing.report, "\n")
+		resp.Body.Report = strings.Join(ing.getReport(), "\n")
 		return resp, nil
 	}
 }
